@@ -811,8 +811,9 @@ func (x *Exec) special(fr *Frame, st *State, ins ssa.Instruction, callee *ssa.Fu
 		a, b := args[0], args[1]
 		k := tb.BoundVar("k", tb.BV(64))
 		H := x.bytesHeap(st)
-		all := tb.Forall([]*Term{k}, tb.Implies(tb.And(tb.SLe(z, k), tb.SLt(k, a.L[2])),
-			tb.Eq(tb.Select(tb.Select(H, a.L[0]), tb.Add(a.L[1], k)), tb.Select(tb.Select(H, b.L[0]), tb.Add(b.L[1], k)))))
+		body := tb.Eq(tb.Select(tb.Select(H, a.L[0]), tb.Add(a.L[1], k)), tb.Select(tb.Select(H, b.L[0]), tb.Add(b.L[1], k)))
+		bv, rng, nb := tb.reindex(k, z, a.L[2], body)
+		all := tb.Forall([]*Term{bv}, tb.Implies(rng, nb))
 		return Val{T: resT, L: []*Term{tb.And(tb.Eq(a.L[2], b.L[2]), all)}}, true
 	case "math.Float32bits", "math.Float64bits", "math.Float32frombits", "math.Float64frombits":
 		return Val{T: resT, L: []*Term{args[0].L[0]}}, true
